@@ -314,8 +314,8 @@ class Generator:
                     tb = tb.tb_next
                 fn = tb.tb_frame.f_code.co_filename
                 if not fn.endswith(('models/internal/properties.py', 'models/internal/value_properties.py', 'models/meta_item_internal.py',
-                                    'models/internal/interleaving_comments.py')):
-                    raise
+                                    'models/internal/interleaving_comments.py', 'models/base.py')):
+                    raise       # (base.py: deep-copying an element of the document, a read, fails inside the token transformer)
                 msg = f'reading {path}.{a} raised {type(e).__name__}: {e} (in {fn.rsplit("/", 1)[-1]}:{tb.tb_lineno})'
 
                 def reraise(e=e):
